@@ -2,6 +2,7 @@ package main
 
 import (
 	"fmt"
+	"regexp"
 	"go/constant"
 	"go/token"
 	"go/types"
@@ -53,6 +54,14 @@ func (w *World) translate(fn *ssa.Function, c *Contract) (vc *VC, err error) {
 	}
 	t.findLoops()
 	order := t.blockOrder()
+	// source-level names (DebugRef) are static information: collect them up front
+	for _, b := range fn.Blocks {
+		for _, in := range b.Instrs {
+			if dr, ok := in.(*ssa.DebugRef); ok {
+				t.debugRef(dr)
+			}
+		}
+	}
 
 	// entry
 	t.cur = &State{h: map[string]string{}}
@@ -98,18 +107,6 @@ func (w *World) translate(fn *ssa.Function, c *Contract) (vc *VC, err error) {
 		t.paramEnv["&"+p.Name()] = Val{T: x, Ty: p.Type()}
 	}
 	t.entry = t.cur.clone()
-	for _, ax := range w.CS.Axioms {
-		env := &Env{t: t, vars: map[string]Val{}, pkg: ax.Pkg, pure: true}
-		s, e := env.evalBool(ax.E)
-		if e != nil {
-			if strings.Contains(e.Error(), "unknown type") {
-				continue // axiom over a package that is not loaded in this run
-			}
-			return nil, fmt.Errorf("%s:%d: axiom: %v", ax.File, ax.Line, e)
-		}
-		vc.FunDecl = append(vc.FunDecl, fmt.Sprintf("(assert %s)", s))
-		vc.Trusted["axiom "+ax.Src] = true
-	}
 	// global invariants of this package (trusted: established by package init)
 	for _, gi := range w.CS.GlobInvs {
 		if gi.Pkg != t.pkg {
@@ -179,12 +176,84 @@ func (w *World) translate(fn *ssa.Function, c *Contract) (vc *VC, err error) {
 			}
 			vc.Items = append(vc.Items, as)
 		}
+		_ = 0
 		for i, f := range t.frameOb {
 			vc.Items = append(vc.Items, Item{Kind: itOblig, Text: f, Name: fmt.Sprintf("frame#%d", i), Src: "modifies clause respected"})
 			vc.NOblig++
 		}
 	}
+	if err := t.emitRelevantAxioms(); err != nil {
+		return nil, err
+	}
 	return vc, nil
+}
+
+var gfTok = regexp.MustCompile(`gf_[A-Za-z0-9_]+`)
+
+// emitRelevantAxioms adds the declared axioms that talk about ghost functions
+// this VC actually uses (closed under the symbols the added axioms introduce).
+// Irrelevant axioms only slow the solvers down (and can cause matching loops).
+func (t *Tr) emitRelevantAxioms() error {
+	used := map[string]bool{}
+	scan := func(s string) {
+		for _, m := range gfTok.FindAllString(s, -1) {
+			used[m] = true
+		}
+	}
+	for _, it := range t.vc.Items {
+		scan(it.Text)
+		scan(it.AltU)
+	}
+	for _, d := range t.vc.FunDecl {
+		scan(d)
+	}
+	type ax struct {
+		text string
+		syms []string
+		src  string
+	}
+	var all []ax
+	saveFun := t.vc.FunDecl
+	for _, a := range t.w.CS.Axioms {
+		env := &Env{t: t, vars: map[string]Val{}, pkg: a.Pkg, pure: true}
+		before := len(t.vc.FunDecl)
+		s, e := env.evalBool(a.E)
+		if e != nil {
+			if strings.Contains(e.Error(), "unknown type") {
+				t.vc.FunDecl = t.vc.FunDecl[:before]
+				continue // axiom over a package that is not loaded in this run
+			}
+			return fmt.Errorf("%s:%d: axiom: %v", a.File, a.Line, e)
+		}
+		all = append(all, ax{"(assert " + s + ")", gfTok.FindAllString(s, -1), a.Src})
+	}
+	_ = saveFun
+	added := map[int]bool{}
+	for changed := true; changed; {
+		changed = false
+		for i, a := range all {
+			if added[i] {
+				continue
+			}
+			rel := false
+			for _, sy := range a.syms {
+				if used[sy] {
+					rel = true
+				}
+			}
+			if !rel {
+				continue
+			}
+			added[i] = true
+			changed = true
+			t.vc.FunDecl = append(t.vc.FunDecl, a.text)
+			t.vc.Trusted["axiom "+a.src] = true
+			for _, sy := range a.syms {
+				used[sy] = true
+			}
+		}
+	}
+	return nil
 }
 
 func sortedGhosts(cs *Contracts) []*GhostDecl {
@@ -564,6 +633,28 @@ func (t *Tr) loopEnv(li *loopInfo, phiVals map[*ssa.Phi]Term, at *ssa.BasicBlock
 			}
 		}
 	}
+	// `for i := range xs`: the key variable is the hidden index + 1, computed in the header
+	for _, in := range li.header.Instrs {
+		bo, ok := in.(*ssa.BinOp)
+		if !ok || bo.Op != token.ADD {
+			continue
+		}
+		phi, ok := bo.X.(*ssa.Phi)
+		if !ok || phi.Comment != "rangeindex" {
+			continue
+		}
+		pv, ok := phiVals[phi]
+		if !ok {
+			continue
+		}
+		for name, vs := range t.debugVals {
+			for _, v := range vs {
+				if v == ssa.Value(bo) {
+					env.vars[name] = Val{T: Term{foldArith("+", pv.S, "1"), SInt_}, Ty: bo.Type()}
+				}
+			}
+		}
+	}
 	return env
 }
 
@@ -597,7 +688,7 @@ func (t *Tr) loopHeader(li *loopInfo) {
 	// implicit invariant of `for i := range slice` loops: the hidden index is >= -1
 	for _, phi := range phis {
 		if phi.Comment == "rangeindex" {
-			t.check(fmt.Sprintf("loop%d/auto-rangeindex/init", li.ord), fmt.Sprintf("(>= %s (- 1))", entryPhis[phi].S), "range index starts at -1", pos)
+			t.check(fmt.Sprintf("loop%d/auto-rangeindex/init", li.ord), t.rangeIdxInv(phi, entryPhis[phi].S), "range index starts at -1 (below the length)", pos)
 		}
 	}
 	// havoc
@@ -623,7 +714,7 @@ func (t *Tr) loopHeader(li *loopInfo) {
 	}
 	for _, phi := range phis {
 		if phi.Comment == "rangeindex" {
-			t.assume(fmt.Sprintf("(>= %s (- 1))", cur[phi].S))
+			t.assume(t.rangeIdxInv(phi, cur[phi].S))
 		}
 	}
 	// implicit frame invariant: heaps the function may not modify stay as at entry
@@ -708,7 +799,7 @@ func (t *Tr) loopBack(li *loopInfo, from *ssa.BasicBlock) {
 	}
 	for phi, v := range vals {
 		if phi.Comment == "rangeindex" {
-			t.check(fmt.Sprintf("loop%d/auto-rangeindex/preserve%s", li.ord, sfx), fmt.Sprintf("(>= %s (- 1))", v.S), "range index stays >= -1", pos)
+			t.check(fmt.Sprintf("loop%d/auto-rangeindex/preserve%s", li.ord, sfx), t.rangeIdxInv(phi, v.S), "range index stays within [-1, len)", pos)
 		}
 	}
 	if li.hasFrame {
@@ -743,6 +834,36 @@ func (t *Tr) loopBack(li *loopInfo, from *ssa.BasicBlock) {
 		t.vals[phi] = v
 	}
 	t.cur, t.curReach, t.curBlock = saveCur, saveReach, saveBlock
+}
+
+// rangeLen: for the hidden index phi of a `range` loop over a slice/array/string,
+// the SSA value it is compared against (the length), if the header has the
+// usual shape `t = phi + 1; if t < n`.
+func rangeLen(phi *ssa.Phi) ssa.Value {
+	for _, in := range phi.Block().Instrs {
+		cmp, ok := in.(*ssa.BinOp)
+		if !ok || cmp.Op != token.LSS {
+			continue
+		}
+		add, ok := cmp.X.(*ssa.BinOp)
+		if !ok || add.Op != token.ADD || add.X != ssa.Value(phi) {
+			continue
+		}
+		return cmp.Y
+	}
+	return nil
+}
+
+func (t *Tr) rangeIdxInv(phi *ssa.Phi, v string) string {
+	s := fmt.Sprintf("(>= %s (- 1))", v)
+	if n := rangeLen(phi); n != nil {
+		if nv, ok := t.vals[n]; ok {
+			s = fmt.Sprintf("(and %s (< %s %s))", s, v, nv.S)
+		} else if c, ok := n.(*ssa.Const); ok {
+			s = fmt.Sprintf("(and %s (< %s %s))", s, v, t.constant(c).S)
+		}
+	}
+	return s
 }
 
 // loopMods computes the heaps a loop body may write.
